@@ -136,10 +136,13 @@ def build_record_map(rm, nm=None):
     def spec(s):
         if s is None:
             return None
-        ct = pandas.DataFrame({c: [r[j] for r in s["control_table"]["rows"]] for j, c in
+        nk = len(s.get("control_table_keys") or [])
+        # names under a renaming: control-table column names, record keys and the content names (cells of the value
+        # columns are column names of the row-record form); cells of the key columns are data, not names
+        ct = pandas.DataFrame({_n(nm, c): [(r[j] if j < nk else _n(nm, r[j])) for r in s["control_table"]["rows"]] for j, c in
                                enumerate(s["control_table"]["cols"])})
-        return cdata.RecordSpecification(ct, record_keys=list(s.get("record_keys") or []),
-                                         control_table_keys=list(s.get("control_table_keys") or []),
+        return cdata.RecordSpecification(ct, record_keys=[_n(nm, c) for c in (s.get("record_keys") or [])],
+                                         control_table_keys=[_n(nm, c) for c in (s.get("control_table_keys") or [])],
                                          strict=bool(s.get("strict", False)))
 
     return cdata.RecordMap(blocks_in=spec(rm.get("blocks_in")), blocks_out=spec(rm.get("blocks_out")),
